@@ -139,6 +139,8 @@ def run_prop(prop, tier):
                     oracle_references(chk, r)
                 else:
                     oracle_order_whole(chk, r)
+    if prop == 'C07' and bres.ok:
+        cross_reference_stream(chk, model, tier)
     return finish(chk, bres, cfg['theorems'],
                   partial_note='The state machine abstracts attribute values to ok / rejected-early / rejected-late; its '
                                'tie to the code is the history correspondence.')
@@ -304,6 +306,69 @@ def oracle_references(chk, r):
         if problems:
             chk.fail('references:unresolved', r.case, f'logical file {li}: ' + '; '.join(problems[:5]))
     # the expected targets (the objects the user passed) are compared by the C05 fidelity oracle
+
+
+def cross_reference_stream(chk, model, tier):
+    """references whose target was added to ANOTHER logical file: must be refused, or resolve in the file"""
+    import numpy as np
+    from dliswriter import DLISFile
+    R = rng('C07', 'cross-lf')
+    tmp = tempfile.mkdtemp(prefix='verif_xref_')
+    try:
+        for i in range(30 if tier == 'quick' else 300):
+            df = DLISFile(set_identifier='XREF')
+            lfs, objs = [], []
+            for k in range(2):
+                lf = df.add_logical_file(fh_id=f'H{k}', fh_sequence_number=k + 1)
+                lf.add_origin(f'O{k}', set_name=f'L{k}', file_set_number=3, creation_time='2020/01/01 00:00:00')
+                ch = lf.add_channel(f'CH{k}', set_name=f'L{k}', data=np.arange(3, dtype=np.float32))
+                lf.add_frame(f'FR{k}', channels=[ch], set_name=f'L{k}')
+                z = lf.add_zone(f'Z{k}', set_name=f'L{k}')
+                ax = lf.add_axis(f'A{k}', set_name=f'L{k}')
+                eq = lf.add_equipment(f'E{k}', set_name=f'L{k}')
+                pa = lf.add_parameter(f'P{k}', set_name=f'L{k}')
+                lfs.append(lf)
+                objs.append({'channel': ch, 'zone': z, 'axis': ax, 'equipment': eq, 'parameter': pa})
+            src, dst = R.choice([(0, 1), (1, 0)])
+            how = R.choice(['tool-channels', 'tool-parts', 'parameter-zones', 'splice', 'channel-axis', 'group', 'process'])
+            o = objs[src]
+
+            def build():
+                L = lfs[dst]
+                if how == 'tool-channels':
+                    L.add_tool('T', channels=[o['channel']], set_name=f'L{dst}')
+                elif how == 'tool-parts':
+                    L.add_tool('T', parts=[o['equipment']], set_name=f'L{dst}')
+                elif how == 'parameter-zones':
+                    L.add_parameter('PX', zones=[o['zone']], values=[1.0], set_name=f'L{dst}')
+                elif how == 'splice':
+                    L.add_splice('S', output_channel=o['channel'], set_name=f'L{dst}')
+                elif how == 'channel-axis':
+                    L.add_channel('CX', axis=[o['axis']], set_name=f'L{dst}X')
+                elif how == 'group':
+                    L.add_group('G', object_list=[o['zone'], o['axis']], set_name=f'L{dst}')
+                else:
+                    L.add_process('PR', parameters=[o['parameter']], input_channels=[o['channel']], set_name=f'L{dst}')
+                df.write(f'{tmp}/x.dlis', output_chunk_size=2**20)
+            st, err = call(build)
+            case = {'reference': how, 'target_in_logical_file': src, 'referencing_object_in_logical_file': dst}
+            chk.case('cross-lf-references', nontrivial_key=('x', how, src), sample={**case, 'status': st})
+            chk.count(f'cross-lf:{how}:{st}')
+            if st != 'ok':
+                continue
+            rep = model.ask([f"dump 8192 {cps('1')} {cps('XREF')} {hexs(open(f'{tmp}/x.dlis', 'rb').read())}"])[0]
+            r = wf.Run()
+            r.case, r.recs = case, (filegen.parse_dump(rep) if rep.startswith('ok') else None)
+            if r.recs is None:
+                chk.fail('references:unreadable', case, 'strict reader rejects the file')
+                continue
+            r.lfs = content.split_logical_files(r.recs)
+            before = len(chk.failures)
+            oracle_references(chk, r)
+            for f in chk.failures[before:]:
+                f['key'] = 'references:target-in-another-logical-file'
+    finally:
+        shutil.rmtree(tmp, ignore_errors=True)
 
 
 def run_c20_oracle(chk, hists, tmp, model, bres):
